@@ -1417,17 +1417,13 @@ impl SctpInner {
         // The connection is only closed when ALL chunks are abandoned, or via heartbeat timeout.
         // This is critical for TURN relay scenarios where SACK packets may be lost.
 
+        let mut still_in_flight = 0usize;
         {
             let mut sent_queue = self.sent_queue.lock();
             let mut retransmit_count = 0u32;
 
             for (tsn, record) in sent_queue.iter_mut() {
                 if !record.acked && !record.abandoned {
-                    // Mark all unacked packets as no longer in-flight
-                    if record.in_flight {
-                        record.in_flight = false;
-                    }
-
                     // Only PR-SCTP chunks (partial reliability: per-channel
                     // max_retransmits or message expiry) may be abandoned.
                     // RELIABLE chunks MUST be retransmitted until acked or
@@ -1438,6 +1434,7 @@ impl SctpInner {
                         record.max_retransmits.is_some() || record.expiry.is_some();
                     if is_pr_sctp && record.transmit_count >= self.max_tsn_retransmits {
                         record.abandoned = true;
+                        record.in_flight = false;
                         debug!(
                             "T3: abandoning PR-SCTP TSN {} after {} transmits",
                             tsn, record.transmit_count
@@ -1446,6 +1443,8 @@ impl SctpInner {
                     }
 
                     if retransmit_count < RETRANSMIT_BURST {
+                        // Presumed lost: leaves the flight until transmit() re-sends it.
+                        record.in_flight = false;
                         // RFC 4960 §6.3.3 / §7.2.3: retransmit outstanding
                         // chunks up to the (collapsed) cwnd. Retransmitting a
                         // burst recovers a burst of losses in one RTO cycle
@@ -1462,14 +1461,20 @@ impl SctpInner {
                         // Reset sent_time for the remaining unacked records to
                         // prevent them from immediately triggering another T3
                         // on the next tick; they will be retransmitted in a
-                        // subsequent T3 cycle if still unacked.
+                        // subsequent T3 cycle if still unacked. Until then they stay
+                        // counted as in flight: nothing tells us the peer lost them, and
+                        // dropping them from the flight would let transmit() put new DATA
+                        // on the wire in their place, beyond the peer's advertised window.
                         record.sent_time = now;
+                        if record.in_flight {
+                            still_in_flight += record.payload.len();
+                        }
                     }
                 }
             }
         }
 
-        self.flight_size.store(0, Ordering::SeqCst);
+        self.flight_size.store(still_in_flight, Ordering::SeqCst);
         self.partial_bytes_acked.store(0, Ordering::SeqCst);
         self.fast_recovery_active.store(false, Ordering::SeqCst);
         self.fast_recovery_exit_tsn.store(0, Ordering::SeqCst);
